@@ -159,7 +159,7 @@ func (fr *Frame) instr(in ssa.Instruction, h Heap) Heap {
 		el := x.Type().Underlying().(*types.Slice).Elem()
 		name, srt := g.elemArrName(el)
 		arr := g.heapArr(nh, name, srt)
-		nh[name] = g.define(name, srt, fmt.Sprintf("(store %s %s ((as const (Array %s %s)) %s))", arr, r, g.IS(), g.sortOf(el), g.zero(el)))
+		nh[name] = g.define(name, srt, fmt.Sprintf("(store %s %s %s)", arr, r, g.constArray("(Array "+g.IS()+" "+g.sortOf(el)+")", g.zero(el))))
 		fr.vals[x] = &Val{T: g.define(fr.prefix+x.Name(), "Slice", fmt.Sprintf("(mk_slice %s %s %s %s)", r, g.ilit(0), ln, cp))}
 		fr.allocEvent(x, ln, el)
 		return nh
